@@ -3,7 +3,10 @@
 EXTENDS Text, Json, IOUtils, SequencesExt, FiniteSetsExt
 CONSTANTS GenL, WithBad
 Alphabet == IF WithBad THEN Sigma \cup {BadUTF8} ELSE Sigma
-GStrings == UNION {[1..k -> Alphabet] : k \in 0..GenL}
+\* long texts: one symbol repeated past typical buffer / length-prefix boundaries, with a hard symbol at the end
+LongOf(s, t, n) == [i \in 1..n |-> IF i = n THEN t ELSE s]
+LongStrings == {LongOf(s, t, n) : s \in {x \in Sigma : x.n \in {"a", "e-acute", "smile"}}, t \in {x \in Sigma : x.n \in {"quote", "bslash", "lf", "a"}}, n \in {127, 128, 255, 256, 257, 1025}}
+GStrings == UNION {[1..k -> Alphabet] : k \in 0..GenL} \cup LongStrings
 Names(str) == [i \in 1..Len(str) |-> str[i].n]
 GenInit == held = <<>> /\ wire = <<>> /\ got = <<>> /\ phase = "gen"
 GenNext == FALSE /\ UNCHANGED vars
